@@ -753,11 +753,16 @@ pub struct Lists {
     ref_len: (usize, usize),
     /// prefix sums of the number of cases per tree
     starts: Vec<u64>,
+    /// if set: the only spellings used (longer lists over a smaller alphabet)
+    only: Option<Vec<&'static str>>,
 }
 
 impl Lists {
     fn new(label: &str, trees: Vec<u32>, src_len: (usize, usize), ref_len: (usize, usize)) -> Lists {
-        let mut l = Lists { label: label.to_string(), trees, src_len, ref_len, starts: vec![] };
+        Self::over(label, trees, src_len, ref_len, None)
+    }
+    fn over(label: &str, trees: Vec<u32>, src_len: (usize, usize), ref_len: (usize, usize), only: Option<Vec<&'static str>>) -> Lists {
+        let mut l = Lists { label: label.to_string(), trees, src_len, ref_len, starts: vec![], only };
         let mut acc = 0;
         let mut starts = vec![];
         for &t in &l.trees {
@@ -770,7 +775,8 @@ impl Lists {
     }
     /// indices (into the tree's spelling list) of the usable spellings: all of them
     fn alpha(&self, bits: u32) -> Vec<usize> {
-        (0..spellings(bits).len()).collect()
+        let sp = spellings(bits);
+        (0..sp.len()).filter(|&i| self.only.as_ref().map_or(true, |o| o.contains(&sp[i].as_str()))).collect()
     }
     fn chunks(&self, n: u64) -> u64 {
         // chunk 0 = the empty reference list (if allowed); chunk c = lists starting with symbol c-1
@@ -909,7 +915,14 @@ pub fn families(tier: &str) -> Vec<Box<dyn Family>> {
     };
     let acyclic = pick(&|b| b & CYCLE_BIT == 0);
     let cyclic = pick(&|b| b & CYCLE_BIT != 0);
-    if tier == "quick" {
+    // longer lists over fewer spellings: a repeat with several entries behind it, several repeats in one list
+    let few = vec!["a.slice", "./a.slice", "b.slice", "sub/c.slice"];
+    let few_dir = vec!["a.slice", "./a.slice", "b.slice", "sub/c.slice", "sub"];
+    let long: Vec<Box<dyn Family>> = vec![
+        Box::new(Lists::over("plain tree and tree {file-link, dir-link} x sources of 4..5 entries over 4 spellings (2 of one file) x references<=1", pick(&|b| b == 0 || b == 6), (4, 5), (0, 1), Some(few))),
+        Box::new(Lists::over("plain tree and tree {file-link, dir-link} x sources<=1 x references of 4..5 entries over 5 spellings (2 of one file, a directory)", pick(&|b| b == 0 || b == 6), (0, 1), (4, 5), Some(few_dir))),
+    ];
+    let mut v: Vec<Box<dyn Family>> = if tier == "quick" {
         vec![
             Box::new(Lists::new("32 trees without the cycle x sources<=2 x references<=2", acyclic, (0, 2), (0, 2))),
             Box::new(Lists::new("32 trees with the cycle x sources<=2 x references<=1", cyclic, (0, 2), (0, 1))),
@@ -925,5 +938,7 @@ pub fn families(tier: &str) -> Vec<Box<dyn Family>> {
             Box::new(Lists::new("tree {cycle} x sources=3 x references<=2", pick(&|b| b == 8), (3, 3), (0, 2))),
             Box::new(Lists::new("tree with all five options but the cycle x sources=3 x references=3", pick(&|b| b == 55), (3, 3), (3, 3))),
         ]
-    }
+    };
+    v.extend(long);
+    v
 }
